@@ -14,7 +14,9 @@ Local Open Scope list_scope.
 Definition chk_C05v_salt (fuel : nat) (f : fn_decl) (root : block) (salt : N) : bool :=
   let I := free_interp salt in
   let args := free_args (length (fn_params f)) in
-  vagree term I (vflat_exec term I (b_ctx root) args fuel) (vstruct_exec term I true f args fuel).
+  let tf := vflat_exec term I (b_ctx root) args fuel in
+  let ts := vstruct_exec term I true f args fuel in
+  vok (snd tf) && vok (snd ts) && vagree term I tf ts.
 
 Definition chk_C05v_fn (salts : list N) (fuel : nat) (f : fn_decl) (root : block) : bool :=
   forallb (chk_C05v_salt fuel f root) salts.
@@ -34,8 +36,9 @@ Definition chk_C05v_intended (salts : list N) (fuel : nat) (p : program) (o : ou
                   forallb (fun salt =>
                              let I := free_interp salt in
                              let args := free_args (length (fn_params f)) in
-                             vagree term I (vflat_exec term I (b_ctx root) args fuel)
-                                    (vstruct_exec term I false f args fuel)) salts)
+                             let tf := vflat_exec term I (b_ctx root) args fuel in
+                             let ts := vstruct_exec term I false f args fuel in
+                             vok (snd tf) && vok (snd ts) && vagree term I tf ts) salts)
                (functions_of p) (o_fns o)
   | _ => true
   end.
